@@ -3,7 +3,7 @@
 Props/Cxx.lean and append a sentence (if given and not yet present)."""
 import json, re, sys
 p = sys.argv[1]; add = sys.argv[2] if len(sys.argv) > 2 else ""
-n = sum(1 for l in open(f"/verif/lean/Hgxv/Props/{p}.lean") if l.startswith("theorem "))
+n = sum(1 for l in open(f"/verif/lean/Hgxv/Props/{p}.lean") if l.startswith(f"theorem {p}_"))
 m = json.load(open("/verif/MANIFEST.json"))
 for c in m["checks"]:
     if c["property_id"] == p:
